@@ -321,6 +321,11 @@ def judge_value(case, got):
     if fn == 'mode':
         if gl != want:
             cls = 'value' if first_mode_is_smallest(xs) else 'multimodal-first-encountered-is-not-smallest'
+            if cls != 'value':
+                # known region: the code returns the smallest of the most frequent values; that much is still demanded
+                top = max(xs.count(v) for v in xs)
+                if gl != min(v for v in xs if xs.count(v) == top):
+                    cls = 'multimodal:not-the-smallest-mode-either'
             return (cls, f'gives {got}, Python gives {float(want):g} (first encountered among the most frequent)')
         return None
     if kind == 'int':
